@@ -329,6 +329,28 @@ def search(ctx, boost=1, focus=()):
     for k in range(n // 2):
         q = gen(rng, k, tight=True)
         ctx.oracle_case("tight", q, run_case("tight", q), nontrivial=reference_selection(q) is not None)
+    # rotation sweep: an oblique lattice with vectors of unequal length, outliers exactly half a cell away at high orders, the
+    # default tolerance; the same configuration in many orientations (the structured oracle is applied in each of them)
+    for k in range(2 * boost if ctx.tier == "quick" else 6 * boost):
+        na, nb = float(rng.uniform(20, 24)), float(rng.uniform(36, 40))
+        ang = np.deg2rad(float(rng.uniform(60, 75)))
+        grid = [(i, j) for i in range(-3, 4) for j in range(-3, 4)]
+        sel = rng.choice(len(grid), size=14, replace=False)
+        idx = np.array([grid[s_] for s_ in sel], dtype=np.float64)
+        out_idx = np.array([(int(rng.integers(-2, 3)), sgn * 8.5) for sgn in (1, -1, 1)] + [(sgn * 8.5, int(rng.integers(-1, 2))) for sgn in (1, -1)])
+        for ang0 in np.deg2rad(np.arange(0, 180, 15) + float(rng.uniform(0, 15))):
+            a = na * np.array([np.sin(ang0), np.cos(ang0)])
+            b = nb * np.array([np.sin(ang0 + ang), np.cos(ang0 + ang)])
+            zero = np.array([300.0, 300.0])
+            noise = rng.uniform(-0.2, 0.2, (len(idx), 2))
+            pts = np.vstack([zero + idx @ np.array([a, b]) + noise, zero + out_idx @ np.array([a, b])])
+            q = {"pts": pts, "elev": rng.uniform(0.5, 3, len(pts)), "kind": np.array([0] * len(idx) + [1] * len(out_idx)),
+                 "true_idx": np.vstack([idx, np.full((len(out_idx), 2), np.nan)]), "zero": zero, "a": a, "b": b,
+                 "start_zero": zero + rng.uniform(-0.3, 0.3, 2), "start_a": a + rng.uniform(-0.05, 0.05, 2),
+                 "start_b": b + rng.uniform(-0.05, 0.05, 2), "tol": 3.0, "min_weight": 0.3, "min_match": 3,
+                 "rot": 0.35, "shift": [5.0, -3.0]}
+            ctx.oracle_case("structured", q, run_case("structured", q), nontrivial=True)
+        ctx.count("rotation_sweep")
     for q in adversarial(rng) * 1:
         ctx.oracle_case("adversarial", q, run_case("adversarial", q))
     ctx.count("oracle_structured", n)
